@@ -155,29 +155,39 @@ def _sim_send(self, request, stream=False, timeout=None, verify=True, cert=None,
         read_timeout = rt if isinstance(rt, (int, float)) else None
     latency = wresp.latency
     fault = wresp.fault
+    # exceptions are shaped exactly as requests' HTTPAdapter.send raises them (wrapped urllib3 errors)
+    import urllib3.exceptions as u3
+
+    host = parts.hostname or "sim.test"
+    port = parts.port or (443 if parts.scheme == "https" else 80)
+    pool_repr = f"HTTPConnectionPool(host='{host}', port={port})"
+    url_path = parts.path + (("?" + parts.query) if parts.query else "")
     if fault == "connect":
         rec.outcome = "ConnectionError"
         if s is not None:
             s.block(lambda: False, 0.0005, "net_latency")
-        raise requests.ConnectionError("sim: connection refused", request=request)
-    if read_timeout is not None and latency > read_timeout:
+        reason = u3.NewConnectionError(None, "Failed to establish a new connection: [Errno 111] Connection refused")
+        raise requests.ConnectionError(u3.MaxRetryError(None, url_path, reason), request=request)
+    if (read_timeout is not None and latency > read_timeout) or fault == "read_timeout":
         rec.outcome = "ReadTimeout"
+        wait = read_timeout if read_timeout is not None else latency
         if s is not None:
-            s.block(lambda: False, read_timeout, "net_latency")
-        raise requests.ReadTimeout(f"sim: read timed out (read timeout={read_timeout})", request=request)
-    if fault == "read_timeout":
-        rec.outcome = "ReadTimeout"
-        if s is not None:
-            s.block(lambda: False, read_timeout if read_timeout is not None else latency, "net_latency")
-        raise requests.ReadTimeout("sim: read timed out", request=request)
+            s.block(lambda: False, wait, "net_latency")
+        err = u3.ReadTimeoutError(None, url_path, f"{pool_repr}: Read timed out. (read timeout={wait})")
+        raise requests.ReadTimeout(err, request=request)
     if s is not None and latency > 0:
         s.block(lambda: False, latency, "net_latency")
     if fault == "reset":
         rec.outcome = "ConnectionError"
-        raise requests.ConnectionError("sim: ('Connection aborted.', ConnectionResetError(104))", request=request)
+        err = u3.ProtocolError("Connection aborted.", ConnectionResetError(104, "Connection reset by peer"))
+        raise requests.ConnectionError(err, request=request)
     if fault == "chunked":
         rec.outcome = "ChunkedEncodingError"
-        raise requests.exceptions.ChunkedEncodingError("sim: connection broken: IncompleteRead", request=request)
+        import http.client
+
+        inc = http.client.IncompleteRead(b"", 10)
+        err = u3.ProtocolError(f"Connection broken: {inc!r}", inc)
+        raise requests.exceptions.ChunkedEncodingError(err, request=request)
     headers = HTTPHeaderDict()
     for k, v in wresp.headers:
         headers.add(k, v)
